@@ -7,6 +7,7 @@
 package main
 
 import (
+	"context"
 	"bytes"
 	"crypto/ecdsa"
 	"crypto/elliptic"
@@ -40,6 +41,7 @@ type env struct {
 	ca        *fixture.CA
 	srv       *fixture.Server
 	adminCrt  *x509.Certificate
+	adminInts []*x509.Certificate
 	adminKey  *ecdsa.PrivateKey
 	leaf      []*x509.Certificate // a valid client certificate chain (for mTLS endpoints)
 	hostCert  *ssh.Certificate    // CA-issued SSH host certificate
@@ -120,7 +122,7 @@ func newEnv() (*env, error) {
 	if err != nil {
 		return nil, fmt.Errorf("admin cert: %w", err)
 	}
-	e.adminCrt, e.adminKey = chain[0], key.(*ecdsa.PrivateKey)
+	e.adminCrt, e.adminKey, e.adminInts = chain[0], key.(*ecdsa.PrivateKey), chain[1:]
 	e.leaf = chain
 	e.hostCert, e.hostKey, err = e.newHostCert()
 	if err != nil {
@@ -157,8 +159,45 @@ func (e *env) newHostCert() (*ssh.Certificate, *ecdsa.PrivateKey, error) {
 	return pk.(*ssh.Certificate), key, nil
 }
 
+// restoreAdminState takes back what the authenticated administrator of the admin generator may legitimately
+// have configured (an authority policy, a policy or webhooks on a provisioner): configuration an
+// administrator asked for is not damage, and the reference request is defined for the original configuration.
+func (e *env) restoreAdminState() {
+	ctx := context.Background()
+	a := e.ca.Auth
+	_ = a.RemoveAuthorityPolicy(ctx)
+	adb := a.GetAdminDatabase()
+	if adb == nil {
+		return
+	}
+	provs, err := adb.GetProvisioners(ctx)
+	if err != nil {
+		return
+	}
+	for _, p := range provs {
+		if p.Policy != nil || len(p.Webhooks) > 0 {
+			p.Policy, p.Webhooks = nil, nil
+			_ = a.UpdateProvisioner(ctx, p)
+		}
+	}
+}
+
 // reference request: a plain X.509 sign must still be served normally
 func (e *env) reference() bool {
+	e.restoreAdminState()
+	// what the administrative requests stored must be readable again: a reload (what every failed admin write
+	// and every restart does) neither fails nor panics
+	reloadOK := func() (ok bool) {
+		defer func() {
+			if r := recover(); r != nil {
+				ok = false
+			}
+		}()
+		return e.ca.Auth.ReloadAdminResources(context.Background()) == nil
+	}()
+	if !reloadOK {
+		return false
+	}
 	csr, _, _ := fixture.CSR("ref.verif.test", []string{"ref.verif.test"})
 	res := e.srv.Serve(e.post("/1.0/sign", map[string]any{"csr": pemCSR(csr), "ott": must(e.ca.Token(fixture.TokenOpts{Subject: "ref.verif.test"}))}), 10*time.Second)
 	if !(res.Status == 201 && res.Panic == "") {
@@ -434,7 +473,24 @@ var gens = map[string]gen{
 	},
 	"admin": func(e *env, r *c.Rng) (*http.Request, string) {
 		type ap struct{ method, path string }
-		p := c.Pick(r, []ap{{"GET", "/admin/provisioners"}, {"GET", "/admin/admins"}, {"POST", "/admin/provisioners"}, {"POST", "/admin/admins"}, {"PATCH", "/admin/admins/" + pickS(r)},
+		// identifiers that exist (so that the handlers' own logic runs) next to ones that do not
+		ident := func(real ...string) string {
+			if r.Chance(1, 2) && len(real) > 0 {
+				return c.Pick(r, real)
+			}
+			return pickS(r)
+		}
+		var adminIDs []string
+		if adms, _, err := e.ca.Auth.GetAdmins("", 20); err == nil {
+			for _, a := range adms {
+				adminIDs = append(adminIDs, a.Id)
+			}
+		}
+		provNames := []string{"jwk", "acme", "sshpop", "new-0", "new-1"}
+		p := c.Pick(r, []ap{{"PATCH", "/admin/admins/" + ident(adminIDs...)}, {"DELETE", "/admin/admins/" + ident(adminIDs...)}, {"GET", "/admin/admins/" + ident(adminIDs...)},
+			{"PUT", "/admin/provisioners/" + ident(provNames...)}, {"DELETE", "/admin/provisioners/" + ident("new-0", "new-1")}, {"GET", "/admin/provisioners/" + ident(provNames...)},
+			{"POST", "/admin/provisioners/" + ident(provNames...) + "/policy"}, {"PUT", "/admin/provisioners/" + ident(provNames...) + "/policy"}, {"DELETE", "/admin/provisioners/" + ident(provNames...) + "/policy"},
+			{"GET", "/admin/provisioners"}, {"GET", "/admin/admins"}, {"POST", "/admin/provisioners"}, {"POST", "/admin/admins"}, {"PATCH", "/admin/admins/" + pickS(r)},
 			{"DELETE", "/admin/admins/" + pickS(r)}, {"PUT", "/admin/provisioners/" + pickS(r)}, {"DELETE", "/admin/provisioners/" + pickS(r)}, {"POST", "/admin/policy"}, {"PUT", "/admin/policy"},
 			{"GET", "/admin/policy"}, {"DELETE", "/admin/policy"}, {"POST", "/admin/provisioners/jwk/policy"}, {"GET", "/admin/acme/eab/acme"}, {"POST", "/admin/acme/eab/acme"},
 			{"GET", "/admin/provisioners/" + pickS(r)}, {"POST", "/admin/provisioners/jwk/webhooks"}})
@@ -443,14 +499,46 @@ var gens = map[string]gen{
 		if p.method != "GET" && p.method != "DELETE" {
 			pol := map[string]any{"x509": map[string]any{"allow": map[string]any{"dns": []string{pickS(r)}, "emails": []string{pickS(r)}, "ips": []string{pickS(r)}, "uris": []string{pickS(r)}, "commonNames": []string{pickS(r)}},
 				"deny": map[string]any{"dns": []string{pickS(r)}, "emails": []string{pickS(r)}}}, "ssh": map[string]any{"user": map[string]any{"allow": map[string]any{"principals": []string{pickS(r)}, "emails": []string{pickS(r)}}}}}
-			switch r.Intn(4) {
+			// mostly the body the endpoint expects (so that the handler's own logic is reached), sometimes another one
+			kind := r.Intn(4)
+			if r.Chance(3, 4) {
+				switch {
+				case strings.Contains(p.path, "policy"):
+					kind = 0
+				case strings.HasPrefix(p.path, "/admin/admins"):
+					kind = 1
+				case strings.HasPrefix(p.path, "/admin/provisioners") && !strings.Contains(p.path, "webhooks"):
+					kind = 2
+				case strings.Contains(p.path, "webhooks"):
+					kind = 4
+				case strings.Contains(p.path, "eab"):
+					kind = 5
+				}
+			}
+			names := []string{"ref.verif.test", "*.verif.test", "step", pickS(r), "10.0.0.0/8", "@verif.test"}
+			switch kind {
 			case 0:
+				if r.Chance(1, 2) { // a well-formed policy that keeps the administrator in
+					pol = map[string]any{"x509": map[string]any{"allow": map[string]any{"dns": []string{"step", c.Pick(r, names)}}, "deny": map[string]any{"dns": []string{c.Pick(r, names)}},
+						"allowWildcardNames": r.Chance(1, 2)}, "ssh": map[string]any{"host": map[string]any{"allow": map[string]any{"dns": []string{c.Pick(r, names)}, "ips": []string{"10.0.0.0/8"}}}}}
+				}
 				body = must(json.Marshal(pol))
 			case 1:
-				body = must(json.Marshal(map[string]any{"subject": pickS(r), "provisioner": pickS(r), "type": c.Pick(r, extremeNums)}))
+				body = must(json.Marshal(map[string]any{"subject": c.Pick(r, []string{"step", "ops", pickS(r)}), "provisioner": c.Pick(r, []string{"jwk", "acme", "sshpop", pickS(r)}),
+					"type": c.Pick(r, append([]any{"ADMIN", "SUPER_ADMIN", 1, 2}, extremeNums...))}))
 			case 2:
-				body = must(json.Marshal(map[string]any{"type": c.Pick(r, []any{"JWK", 1, "ACME", 99, pickS(r)}), "name": pickS(r), "details": map[string]any{"JWK": map[string]any{"publicKey": pickS(r)}},
-					"claims": map[string]any{"x509": map[string]any{"durations": map[string]any{"min": pickS(r), "max": c.Pick(r, extremeTimes), "default": c.Pick(r, extremeTimes)}}}, "policy": pol}))
+				jwk := must(jose.GenerateJWK("EC", "P-256", "ES256", "sig", "", 0))
+				pub := jwk.Public()
+				pubJSON := must(json.Marshal(&pub))
+				body = must(json.Marshal(map[string]any{"type": c.Pick(r, []any{"JWK", "JWK", "ACME", 1, 99, pickS(r)}), "name": c.Pick(r, []string{"jwk", "new-" + fmt.Sprint(r.Intn(5)), pickS(r)}),
+					"details": map[string]any{"JWK": map[string]any{"publicKey": c.Pick(r, []any{base64.StdEncoding.EncodeToString(pubJSON), pickS(r), ""})}},
+					"claims": map[string]any{"x509": map[string]any{"enabled": true, "durations": map[string]any{"min": c.Pick(r, []string{"5m", pickS(r)}), "max": c.Pick(r, append([]string{"24h"}, extremeTimes...)), "default": c.Pick(r, append([]string{"1h"}, extremeTimes...))}}},
+					"policy": c.Pick(r, []any{nil, pol})}))
+			case 4:
+				body = must(json.Marshal(map[string]any{"name": c.Pick(r, []string{"wh", pickS(r)}), "url": c.Pick(r, []string{"https://wh.verif.test/x", pickS(r)}), "kind": c.Pick(r, []any{"ENRICHING", "AUTHORIZING", 1, pickS(r)}),
+					"certType": c.Pick(r, []any{"ALL", "X509", "SSH", 7})}))
+			case 5:
+				body = must(json.Marshal(map[string]any{"provisioner": c.Pick(r, []string{"acme", pickS(r)}), "reference": pickS(r)}))
 			default:
 				body = rawBody(r)
 			}
@@ -461,7 +549,7 @@ var gens = map[string]gen{
 			req = httptest.NewRequest("GET", "/admin/admins", nil)
 			path = "/admin/admins"
 		}
-		tok, _ := fixture.AdminToken(e.adminCrt, e.adminKey, req.URL.Path, "step")
+		tok, _ := fixture.AdminToken(e.adminCrt, e.adminKey, req.URL.Path, "step", e.adminInts...)
 		if r.Chance(1, 8) {
 			tok = pickS(r)
 		}
